@@ -133,7 +133,7 @@ func c11gen(r *rand.Rand) []c11op {
 		case x < 76:
 			p = append(p, c11op{Op: "getC", K: k})
 		case x < 84:
-			p = append(p, c11op{Op: "header", N: []int{200, 302, 404, 500}[r.Intn(4)]})
+			p = append(p, c11op{Op: "header", N: []int{200, 302, 404, 500, 200, 302, 100, 101, 103}[r.Intn(9)]}) // incl. informational codes and 101
 		case x < 90:
 			p = append(p, c11op{Op: "write", N: r.Intn(64)})
 		case x < 93:
@@ -441,7 +441,7 @@ func min(a, b int) int {
 func init() {
 	register(&Check{
 		ID: "C11", Level: "exploration",
-		Rule:  "random handler programs (0-25 operations over putS/delS/delAllS/putC/delC/getS/getC/WriteHeader/Write/io.Copy (the base writer implements io.ReaderFrom like net/http's) and nesting the writer in wrappers exposing UnderlyingResponseWriter() or Unwrap(), depth <= 4; in 1/6 of the programs one of the stores fails its first WriteState and the handler recovers and carries on) executed by a handler behind the real LoadClientStateMiddleware with two recording stores and a recording base writer sharing one sequence counter. Offline checker over the log: each store receives <= 1 delivery, exactly the operations made for it before the first write, same order/keys/values, never the other store's; every delivery precedes the first header or body byte released to the base writer; operations after the first write are never delivered; every read returns the request-start value whatever was put earlier. distinct_nontrivial = distinct program shapes (#ops, #ops before first write, #writes, wrapper depth, kind of first write).",
+		Rule:  "random handler programs (0-25 operations over putS/delS/delAllS/putC/delC/getS/getC/WriteHeader (final codes, 100/103 informational, 101)/Write/io.Copy (the base writer implements io.ReaderFrom like net/http's) and nesting the writer in wrappers exposing UnderlyingResponseWriter() or Unwrap(), depth <= 4; in 1/6 of the programs one of the stores fails its first WriteState and the handler recovers and carries on) executed by a handler behind the real LoadClientStateMiddleware with two recording stores and a recording base writer sharing one sequence counter. Offline checker over the log: each store receives <= 1 delivery, exactly the operations made for it before the first write, same order/keys/values, never the other store's; every delivery precedes the first header or body byte released to the base writer; operations after the first write are never delivered; every read returns the request-start value whatever was put earlier. distinct_nontrivial = distinct program shapes (#ops, #ops before first write, #writes, wrapper depth, kind of first write).",
 		Units: func(t string) int { return tierN(t, 64, 256) },
 		Run:   c11Unit,
 		Floors: func(t string) map[string]int {
